@@ -5,13 +5,22 @@
 (* Environment : catalog writes of the source (collection creating -> created -> dropping -> dropped ->        *)
 (*               tombstone, creating -> tombstone, partition create / drop, re-creation of a name).            *)
 (* Design      : the reader of the LAST task, one action per step between two catalog accesses                 *)
-(*               (OpenC = WatchCollection, OpenP = WatchPartition, List = GetAllCollection + newest-wins +     *)
+(*               (Sub = Subscribe*Event, OpenC = WatchCollection, OpenP = WatchPartition, List =               *)
+(*               GetAllCollection + newest-wins +                                                              *)
 (*               StartReadCollection for each, PList = GetAllPartition + AddPartition for each, StartW),       *)
 (*               and the two watch goroutines (DrainC, DrainP) delivering buffered events to the per task      *)
 (*               consumers.  Tasks in Early have completed their StartRead on the initial catalog: the watches *)
 (*               are open and released from the start.  Deviation switch: PartFix (FALSE = as built: a         *)
 (*               consumer that does not select the collection reports a partition event as consumed, so the    *)
 (*               task that selects it may never see it).                                                       *)
+(*               Sub = the last task registers its event consumers (SubscribeCollectionEvent /                 *)
+(*               SubscribePartitionEvent): a step of its own, because the EtcdOp - its watches and its         *)
+(*               start-watch gate - is shared by all tasks of a replicate entity.  When an earlier task runs,  *)
+(*               the watch goroutines are delivering while the last task starts, and they offer an event only  *)
+(*               to the consumers registered at that moment.  Deviation switch SubAt ("first" = as built:      *)
+(*               before the watches and the listings; "last" = after the listings, right before StartWatch).   *)
+(*               Sync (plan step, SyncSteps) = the watch goroutines have handled every event written so far;   *)
+(*               it orders the watch's delivery against the last task's steps and the catalog writes in plans. *)
 (* Contract    : invariants over what the channel manager was asked to do (ghost sets started, bad, added,     *)
 (*               droppedC) - EventuallyStarted at quiescence, NewestWins, OlderMarkedDropped,                  *)
 (*               CreatingToDroppedIgnored (OnlyCreated), OnlySelected.                                         *)
@@ -25,11 +34,14 @@ CONSTANTS Slots,      \* set of slot names (strings)
           Sel,        \* [Tasks -> SUBSET Slots] (cfg: Sel <- SelOne / SelTwo ...)
           LastT,       \* the task whose StartRead is interleaved with the writes
           MaxW,       \* number of catalog writes in a history
-          InitKinds,  \* "empty" | "live" (first incarnation of every slot created, no partition) | "any": initial catalogs
+          InitKinds,  \* "empty" | "creating" (first incarnation of every slot being created) | "live" (... created, no partition) | "any": initial catalogs
           WithDrain,  \* FALSE in plan generation: only environment / reader steps are plan steps
-          PartFix     \* TRUE = repaired partition consumer
+          PartFix,    \* TRUE = repaired partition consumer
+          SubAt,      \* "first" = the reader subscribes its consumers before opening the watches (as built); "last" = after the listings
+          SyncSteps   \* TRUE in plan generation with delivery barriers: "the watches have handled everything written so far" is a plan step
 
 VARIABLES coll, part,           \* catalog: state of every incarnation / of its non-default partition
+          sub,                  \* the last task's consumers are registered with the (shared) EtcdOp
           pc,                   \* progress of the last task's StartRead: 0 init, 1 coll watch open, 2 both open, 3 listed, 4 partitions listed, 5 watching
           cbuf, pbuf, cpos, ppos, \* watch streams since they were opened, and how far they have been handled
           older,                \* ids the last task's listing found to be older incarnations (repeatedCollectionID)
@@ -40,8 +52,8 @@ VARIABLES coll, part,           \* catalog: state of every incarnation / of its 
           nw, hist
 
 Ids == Slots \X (1..MaxInc)
-vars == <<cat0, coll, part, pc, cbuf, pbuf, cpos, ppos, older, started, bad, added, droppedC, ever, everP, allOlder, newestL, nw, hist>>
-view == <<cat0, coll, part, pc, cbuf, pbuf, cpos, ppos, older, started, bad, added, droppedC, ever, everP, allOlder, newestL, nw>>
+vars == <<cat0, coll, part, sub, pc, cbuf, pbuf, cpos, ppos, older, started, bad, added, droppedC, ever, everP, allOlder, newestL, nw, hist>>
+view == <<cat0, coll, part, sub, pc, cbuf, pbuf, cpos, ppos, older, started, bad, added, droppedC, ever, everP, allOlder, newestL, nw>>
 
 \* cfg helpers
 SelOne == [t \in {"t1"} |-> Slots]
@@ -56,6 +68,9 @@ PListed == {"created", "dropped"}                   \* what GetAllPartition retu
 CW == Early # {} \/ pc >= 1                          \* collection watch open
 PW == Early # {} \/ pc >= 2
 Released == Early # {} \/ pc = 5
+\* the tasks whose consumers the watch goroutines find when they hand out an event
+Subscribed == Early \cup (IF sub THEN {LastT} ELSE {})
+SubSel == UNION {Sel[t] : t \in Subscribed}
 
 (* ---------------------------------------------------------------- listing effects (collection_reader.go:193-338) *)
 ListedNow == {id \in Ids : coll[id] \in CListed}
@@ -72,13 +87,14 @@ ValidCat(cf, pf) ==
         /\ pf[<<c, i>>] # "none" => cf[<<c, i>>] \in CListed
 InitCats ==
     IF InitKinds = "empty" THEN {<<[id \in Ids |-> "none"], [id \in Ids |-> "none"]>>}
+    ELSE IF InitKinds = "creating" THEN {<<[id \in Ids |-> IF id[2] = 1 THEN "creating" ELSE "none"], [id \in Ids |-> "none"]>>}
     ELSE IF InitKinds = "live" THEN {<<[id \in Ids |-> IF id[2] = 1 THEN "created" ELSE "none"], [id \in Ids |-> "none"]>>}
     ELSE {x \in [Ids -> {"none", "creating", "created", "dropping", "dropped", "tombstone"}] \X [Ids -> {"none", "created", "dropped"}] :
               ValidCat(x[1], x[2])}
 
 Init ==
     /\ \E x \in InitCats : coll = x[1] /\ part = x[2] /\ cat0 = x
-    /\ pc = 0 /\ cbuf = <<>> /\ pbuf = <<>> /\ cpos = 0 /\ ppos = 0 /\ older = {}
+    /\ sub = FALSE /\ pc = 0 /\ cbuf = <<>> /\ pbuf = <<>> /\ cpos = 0 /\ ppos = 0 /\ older = {}
     /\ ever = {id \in Ids : coll[id] \in CListed \cup {"tombstone"}}
     /\ everP = {id \in Ids : part[id] # "none"}
     \* tasks in Early have run StartRead on this catalog
@@ -129,17 +145,23 @@ PDrop(id) == /\ part[id] = "created" /\ coll[id] \in {"created", "dropping", "dr
              /\ nw' = nw + 1
              /\ UNCHANGED <<coll, cbuf, ever, everP>>
 
+\* reduction: without an earlier task no watch exists before OpenC, so a write between Sub and OpenC is the same plan as
+\* the write before Sub
 Write == /\ nw < MaxW
+         /\ ~(Early = {} /\ sub /\ pc = 0)
          /\ \E id \in Ids : New(id) \/ Ok(id) \/ Fail(id) \/ Drop(id) \/ Dropped(id) \/ Gc(id) \/ PNew(id) \/ PDrop(id)
-         /\ UNCHANGED <<pc, cpos, ppos, older, started, bad, added, droppedC, allOlder, newestL>>
+         /\ UNCHANGED <<sub, pc, cpos, ppos, older, started, bad, added, droppedC, allOlder, newestL>>
 
 (* ---------------------------------------------------------------- the last task's StartRead *)
 RStep(name) == hist' = Append(hist, [op |-> "r", kind |-> name, c |-> "", i |-> 0])
 
-OpenC == /\ pc = 0 /\ pc' = 1 /\ RStep("openc")
-         /\ UNCHANGED <<coll, part, cbuf, pbuf, cpos, ppos, older, started, bad, added, droppedC, ever, everP, allOlder, newestL, nw>>
+\* SubscribeCollectionEvent + SubscribePartitionEvent (no catalog access in between)
+Sub == /\ ~sub /\ pc = (IF SubAt = "first" THEN 0 ELSE 4) /\ sub' = TRUE /\ RStep("sub")
+       /\ UNCHANGED <<coll, part, pc, cbuf, pbuf, cpos, ppos, older, started, bad, added, droppedC, ever, everP, allOlder, newestL, nw>>
+OpenC == /\ pc = 0 /\ (SubAt = "first" => sub) /\ pc' = 1 /\ RStep("openc")
+         /\ UNCHANGED <<sub, coll, part, cbuf, pbuf, cpos, ppos, older, started, bad, added, droppedC, ever, everP, allOlder, newestL, nw>>
 OpenP == /\ pc = 1 /\ pc' = 2 /\ RStep("openp")
-         /\ UNCHANGED <<coll, part, cbuf, pbuf, cpos, ppos, older, started, bad, added, droppedC, ever, everP, allOlder, newestL, nw>>
+         /\ UNCHANGED <<sub, coll, part, cbuf, pbuf, cpos, ppos, older, started, bad, added, droppedC, ever, everP, allOlder, newestL, nw>>
 \* GetAllCollection, newest per (database, name), AddDroppedCollection(older), StartReadCollection for the others
 List == /\ pc = 2 /\ pc' = 3 /\ RStep("list")
         /\ LET L == ListedNow
@@ -151,41 +173,57 @@ List == /\ pc = 2 /\ pc' = 3 /\ RStep("list")
               /\ droppedC' = droppedC \cup old
               /\ started' = started \cup go
               /\ bad' = bad \cup (go \cap ((allOlder \cup old) \ (droppedC \cup old)))
-        /\ UNCHANGED <<coll, part, cbuf, pbuf, cpos, ppos, added, ever, everP, nw>>
+        /\ UNCHANGED <<sub, coll, part, cbuf, pbuf, cpos, ppos, added, ever, everP, nw>>
 \* GetAllPartition with the filter that calls AddPartition
 PList == /\ pc = 3 /\ pc' = 4 /\ RStep("plist")
          /\ added' = added \cup PAddable(older, Sel[LastT])
-         /\ UNCHANGED <<coll, part, cbuf, pbuf, cpos, ppos, older, started, bad, droppedC, ever, everP, allOlder, newestL, nw>>
-StartW == /\ pc = 4 /\ pc' = 5 /\ RStep("startw")
-          /\ UNCHANGED <<coll, part, cbuf, pbuf, cpos, ppos, older, started, bad, added, droppedC, ever, everP, allOlder, newestL, nw>>
+         /\ UNCHANGED <<sub, coll, part, cbuf, pbuf, cpos, ppos, older, started, bad, droppedC, ever, everP, allOlder, newestL, nw>>
+StartW == /\ pc = 4 /\ sub /\ pc' = 5 /\ RStep("startw")
+          /\ UNCHANGED <<sub, coll, part, cbuf, pbuf, cpos, ppos, older, started, bad, added, droppedC, ever, everP, allOlder, newestL, nw>>
 
 (* ---------------------------------------------------------------- the watch goroutines *)
-\* every subscribed task's consumer; the collection consumer of a task that does not select returns false (next one is asked)
+\* An event is offered to the consumers of the tasks subscribed at that moment (Subscribed); the collection consumer of a
+\* task that does not select returns false (next one is asked).  g = [s |-> started, b |-> bad, d |-> droppedC].
+CEffect(g, e) ==
+    IF e.st = "tombstone" /\ e.prev = "creating"
+      THEN [g EXCEPT !.d = @ \cup {e.id}]                                                \* SkipCollectionState
+      ELSE IF e.st = "created" /\ coll[e.id] # "tombstone" /\ e.id[1] \in SubSel        \* fields still readable
+             THEN [g EXCEPT !.s = @ \cup {e.id}, !.b = IF e.id \in allOlder \ g.d THEN @ \cup {e.id} ELSE @]
+             ELSE g
+PDeliverable(e) == e.st = "created" /\ coll[e.id] \notin {"none", "tombstone"} /\ e.id[1] \in SubSel
+\* as built: a consumer that does not select the collection answers "consumed" and ends the round
+PMayBeEaten(e) == ~PartFix /\ \E t \in Subscribed : e.id[1] \notin Sel[t]
+
 DrainC ==
     /\ WithDrain /\ Released /\ cpos < Len(cbuf)
     /\ cpos' = cpos + 1
-    /\ LET e == cbuf[cpos + 1] IN
-         IF e.st = "tombstone" /\ e.prev = "creating"
-           THEN /\ droppedC' = droppedC \cup {e.id} /\ UNCHANGED <<started, bad>>       \* SkipCollectionState
-           ELSE IF e.st = "created" /\ coll[e.id] # "tombstone" /\ e.id[1] \in Selected  \* fields still readable
-                  THEN /\ started' = started \cup {e.id}
-                       /\ bad' = IF e.id \in allOlder \ droppedC THEN bad \cup {e.id} ELSE bad
-                       /\ UNCHANGED droppedC
-                  ELSE UNCHANGED <<started, bad, droppedC>>
-    /\ UNCHANGED <<coll, part, pc, cbuf, pbuf, ppos, older, added, ever, everP, allOlder, newestL, nw, hist>>
+    /\ LET g == CEffect([s |-> started, b |-> bad, d |-> droppedC], cbuf[cpos + 1])
+       IN started' = g.s /\ bad' = g.b /\ droppedC' = g.d
+    /\ UNCHANGED <<sub, coll, part, pc, cbuf, pbuf, ppos, older, added, ever, everP, allOlder, newestL, nw, hist>>
 
 DrainP ==
     /\ WithDrain /\ Released /\ ppos < Len(pbuf)
     /\ ppos' = ppos + 1
     /\ LET e == pbuf[ppos + 1]
-           deliverable == e.st = "created" /\ coll[e.id] \notin {"none", "tombstone"} /\ e.id[1] \in Selected
-           \* as built: a consumer that does not select the collection answers "consumed" and ends the round
-           mayBeEaten == ~PartFix /\ \E t \in Tasks : e.id[1] \notin Sel[t]
-       IN \/ /\ deliverable /\ added' = added \cup {e.id}
-          \/ /\ (~deliverable \/ mayBeEaten) /\ UNCHANGED added
-    /\ UNCHANGED <<coll, part, pc, cbuf, pbuf, cpos, older, started, bad, droppedC, ever, everP, allOlder, newestL, nw, hist>>
+       IN \/ /\ PDeliverable(e) /\ added' = added \cup {e.id}
+          \/ /\ (~PDeliverable(e) \/ PMayBeEaten(e)) /\ UNCHANGED added
+    /\ UNCHANGED <<sub, coll, part, pc, cbuf, pbuf, cpos, older, started, bad, droppedC, ever, everP, allOlder, newestL, nw, hist>>
 
-Next == (Write \/ OpenC \/ OpenP \/ List \/ PList \/ StartW \/ DrainC \/ DrainP) /\ cat0' = cat0
+\* Delivery barrier (a plan step): both watch goroutines have handled every event written so far.  Only while the last
+\* task is still starting (afterwards no reader step is left to be ordered against the delivery).
+Sync ==
+    /\ SyncSteps /\ Released /\ pc < 5 /\ (cpos < Len(cbuf) \/ ppos < Len(pbuf))
+    /\ cpos' = Len(cbuf) /\ ppos' = Len(pbuf)
+    /\ LET g == FoldLeft(CEffect, [s |-> started, b |-> bad, d |-> droppedC], SubSeq(cbuf, cpos + 1, Len(cbuf)))
+           pend == {pbuf[n] : n \in (ppos + 1)..Len(pbuf)}
+           sure == {e.id : e \in {x \in pend : PDeliverable(x) /\ ~PMayBeEaten(x)}}
+           maybe == {e.id : e \in {x \in pend : PDeliverable(x) /\ PMayBeEaten(x)}}
+       IN /\ started' = g.s /\ bad' = g.b /\ droppedC' = g.d
+          /\ \E X \in SUBSET maybe : added' = added \cup sure \cup X
+    /\ hist' = Append(hist, [op |-> "d", kind |-> "sync", c |-> "", i |-> 0])
+    /\ UNCHANGED <<sub, coll, part, pc, cbuf, pbuf, older, ever, everP, allOlder, newestL, nw>>
+
+Next == (Write \/ Sub \/ OpenC \/ OpenP \/ List \/ PList \/ StartW \/ DrainC \/ DrainP \/ Sync) /\ cat0' = cat0
 Spec == Init /\ [][Next]_vars
 
 (* ---------------------------------------------------------------- contract *)
@@ -208,7 +246,7 @@ EventuallyStarted == Quiet => (CollsStartedP(Selected) /\ PartsAddedP(Selected, 
 
 Contract == OnlyCreated /\ OnlySelected /\ NewestWins /\ EventuallyStarted
 
-TypeOK == /\ pc \in 0..5 /\ cpos <= Len(cbuf) /\ ppos <= Len(pbuf) /\ nw <= MaxW
+TypeOK == /\ sub \in BOOLEAN /\ pc \in 0..5 /\ cpos <= Len(cbuf) /\ ppos <= Len(pbuf) /\ nw <= MaxW
           /\ started \subseteq Ids /\ added \subseteq Ids /\ droppedC \subseteq Ids
 
 (* ---------------------------------------------------------------- plans *)
